@@ -19,7 +19,9 @@ def gen(rng):
     elif k < 0.55: c = rng.choice([M, -M, 2 * M, M + 1, M - 1, -M - 1, 3 * M + 5, -2 * M + hi])
     elif k < 0.8: c = rng.choice([1, -1]) * rng.getrandbits(rng.randint(1, 4 * n))
     else: c = rng.randint(lo, hi)
-    return {'f': [s, n, nf], 'c': c, 'o': rng.choice(OMODES), 'r': rng.choice(RMODES), 'kind': rng.choice(['raw', 'raw', 'value', 'binstr', 'hexstr']), 'route': rng.choice(['ctor', 'call', 'set_val'])}
+    kind = rng.choice(['raw', 'raw', 'value', 'binstr', 'hexstr', 'hexshort'])
+    if kind == 'hexshort': c = rng.getrandbits(rng.randint(1, max(1, n - 2)))      # (a non-negative code of any length below the word)
+    return {'f': [s, n, nf], 'c': c, 'o': rng.choice(OMODES), 'r': rng.choice(RMODES), 'kind': kind, 'route': rng.choice(['ctor', 'call', 'set_val'])}
 
 def run_cases(cases, res):
     fx = lib.impl(); import numpy as np
@@ -29,11 +31,13 @@ def run_cases(cases, res):
         kw = dict(rounding=c['r'], overflow=c['o'])
         try:
             kind = c['kind']
-            if kind in ('binstr', 'hexstr'):
+            if kind in ('binstr', 'hexstr', 'hexshort'):
                 if not (lo <= code <= hi): kind = 'raw'
+                elif kind == 'hexshort' and code < 0: kind = 'hexstr'
             if kind == 'raw': val, raw = code, True
             elif kind == 'value': val, raw = code, False
             elif kind == 'binstr': val, raw = '0b' + c11.py_bin(n, code), True
+            elif kind == 'hexshort': val, raw = '0x%X' % code, True      # the digits of a non-negative code without leading zeros (what hex(padding=False) renders)
             else: val, raw = '0x' + c11.py_hex(n, code), True
             if c['route'] == 'ctor': x = fx.Fxp(val, s, n, nf, raw=raw, **kw)
             else:
